@@ -109,7 +109,7 @@ func runCase(w *world, k kase, check string, verbose bool) [][2]string {
 			}
 		}
 		for _, e := range judgeBlame(w, k, end, honest) {
-			add(fmt.Sprintf("blame|%s|%s", k.Scenario.Proto+"|"+e[0], errClassOf(e)), e[1]+"\n"+desc())
+			add(fmt.Sprintf("blame|%s|%s", k.Scenario.Proto, e[0]), e[1]+"\n"+desc())
 		}
 	case "C05":
 		for _, id := range honest {
@@ -132,8 +132,6 @@ func runCase(w *world, k kase, check string, verbose bool) [][2]string {
 	}
 	return vs
 }
-
-func errClassOf(e [2]string) string { return e[0] }
 
 // judgeResults: every honest party that finished must hold a correct result, consistent with the other honest finishers.
 func judgeResults(w *world, end *faults.End, honest []party.ID) [][2]string {
